@@ -25,7 +25,10 @@ def _node_identity(node: HyperNode) -> str:
     fallback = getattr(node, "fallback", None)
     # A multi-target gate validates and stores its decision differently (a list of targets)
     multi_target = getattr(node, "multi_target", None)
-    return f"{node.definition_hash}:{type(node).__name__}:{node.outputs!r}:{targets!r}:{fallback!r}:{multi_target!r}"
+    # Data outputs and emit signals are stored differently (a value / a sentinel):
+    # ("a", "b") as two values is not "a" as a value plus the signal "b"
+    outputs = (tuple(node.data_outputs), tuple(node.outputs[len(node.data_outputs) :]))
+    return f"{node.definition_hash}:{type(node).__name__}:{outputs!r}:{targets!r}:{fallback!r}:{multi_target!r}"
 
 
 def check_cache(
